@@ -510,3 +510,24 @@ _add_bodies("C19", ["km_phiM", "km_phiC", "km_psiM", "km_mParam", "km_nParam"])
 _add_bodies("C09", ["pbl_psi", "pbl_phi", "km_psiM", "km_phiC"])
 _add_bodies("C14", ["iface_make_cache", "iface_run_timeseries", "iface_run_multitower", "iface_worker_single", "iface_worker_timeseries", "iface_run_parallel"])
 _add_bodies("C16", ["iface_run_timeseries"])
+
+# C07: y-mirror in footprint mode (conjugation of the footprint-mode x-mirror with the axis swap)
+REGISTRY["C07"]["theorems"] += T("Proofs.C07h", "BLDFM.C07", ["mirrorXfpOf_pair", "mirrorYfp_is_conjugate", "mirrorY_footprint_field"])
+REGISTRY["C07"]["partial_clauses"][1] = (
+    "axis swap, length similarity, velocity similarity are theorems at FIELD level through the whole model pipeline; the x- and y-mirror for every non-Nyquist component and at "
+    "field level when every slot of the mirrored axis has a partner (odd retained-mode count): dispersion mode with the measurement point at the origin (mirrorX_field, "
+    "mirrorY_field) and FOOTPRINT mode with the on-grid tower mirrored (mirrorX_footprint_field, mirrorY_footprint_field); with an even retained-mode count the Nyquist "
+    "component has no partner (excluded by the statement) and the field identity is checked by the oracle with the Nyquist rows filtered")
+
+# C19 mass clause, two-dimensional cell sum: 2-D Riemann sums of a continuous function converge to the iterated integral; the implemented cell
+# density (extended by 0 for x <= 0) is continuous on the plane; the cell sums converge to the mass captured by the grid's extent
+REGISTRY["C19"]["theorems"] += T("Proofs.C19f", "BLDFM.C19", ["riemannSum2_eq", "riemann_sum2_error", "riemann_sum2_tendsto", "kmEnv_tendsto", "kmCell2_le_env",
+                                                               "kmCell2_continuous", "km_cell_sum_tendsto", "kmCell2_eq"])
+REGISTRY["C19"]["partial_clauses"][0] = (
+    "mass clause: THEOREMS - (i) the two-dimensional cell sums of the implemented density f^y(x) D_y(x, y) (0 for x <= 0, as coded) converge, as the grid is refined and "
+    "whichever point of a cell is sampled, to the mass of the continuous footprint over the grid's extent [0, X] x [-W, W] (km_cell_sum_tendsto, from riemann_sum2_tendsto and "
+    "kmCell2_continuous: the density is continuous on the whole plane, e^{-xi/x} beats the 1/sigma(x) of the Gaussian at the receptor line); (ii) the along-wind sums of the "
+    "crosswind-integrated footprint converge to EXACTLY Q(mu, xi/X) (km_grid_sum_tendsto_mass, km_mass_within_extent; the upper incomplete gamma function written as its "
+    "defining integral because Mathlib has none); (iii) the crosswind Gaussian has unit mass (km_crosswind_gaussian_unit_mass). Not assembled in Lean: that the iterated integral "
+    "of (i) equals Q(mu, xi/X) times the Gaussian's mass within +-W and tends to (ii) as W grows (Fubini + dominated convergence); the oracle checks the number against "
+    "scipy.special.gammaincc with W = 8 sigma(X)")
